@@ -488,9 +488,10 @@ fn sync_case(cs: u64, args: &Args, m16: &mut Monitor, m17: &mut Monitor, m01: &m
             };
             if route == id {
                 m.violation(&f.sig, json!({"case": case, "finding": f.detail}));
-            } else if !args.wants(route) && args.wants(id) {
-                // the owning property's monitor is not part of this run: a session that breaks
-                // another sync property cannot count as held here either
+            } else if id == "C16" && route == "C17" && !args.wants(route) && args.wants(id) {
+                // C17's monitor is not part of this run: a session that is unsound or does not end
+                // cannot count as delivering everything either. (Only this direction: C16's own
+                // findings include known ones, which must not reappear under another property.)
                 m.violation(&format!("{route}:{}", f.sig), json!({"case": case, "finding": f.detail}));
             }
         }
